@@ -1,5 +1,6 @@
 """C06 - match criteria evaluate to the mathematical truth of their comparisons."""
 import itertools
+import json
 
 from harness import crit, tables
 
@@ -199,7 +200,8 @@ def run(ctx):
                 "conditions x all 4 truth assignments; comparison lists and every order of 3-entry lookups; and (B) random criteria "
                 "trees and assignments. Each case is evaluated by the real classes built through constructors and through XML "
                 "(explicit and omitted defaults) and compared by Trace_Criteria; the specification also checks its own De Morgan "
-                "duality on every boolean case. distinct = distinct (expression, environment, construction route).")
+                "duality on every boolean case. One evaluator object per (expression, route) evaluates all its environments, in shuffled order. "
+                "distinct = distinct (expression, environment, construction route).")
     ctx.assumptions = ["values are within +-2^12 with dyadic fractions so 32-bit cross-multiplication is exact",
                        "ordering of strings and relations whose literal is not expressible in the operand's type are 'undefined' "
                        "(any answer accepted), as are expressions with a missing operand"]
@@ -209,16 +211,23 @@ def run(ctx):
     rcases = [rand_case(rng) for _ in range(3000 if q else 60000)]
     ctx.extra["B_cases"] = len(rcases)
     lines = []
-    for i, c in enumerate(cases + rcases):
+    shared, hist = {}, {}
+    order = list(enumerate(cases + rcases))
+    head = order[:len(cases)]
+    rng.shuffle(head)           # one evaluator object sees its environments in no particular order
+    order[:len(cases)] = head
+    for i, c in order:
         routes = [("ctor", False)]
         if crit.xml_ok(c["expr"]):
             routes += [("xml", False), ("xml", True)] if (i < len(cases) or i % 3 == 0) else [("xml", bool(i % 2))]
         if i < len(cases) and q and c["kind"] in ("cmp", "cond") and i % 2:
             routes = routes[:1] if i % 4 == 1 else routes[-1:]
         for via, od in routes:
-            obs, obsn = crit.observe(c["kind"], c["expr"], c["env"], c["cur"], via, od)
-            ln = dict(c, obs=obs, obsn=obsn, via=via + ("-defaults-omitted" if od else ""), src="A" if i < len(cases) else "B")
+            obs, obsn = crit.observe(c["kind"], c["expr"], c["env"], c["cur"], via, od, shared=shared)
+            h = hist.setdefault((c["kind"], json.dumps(c["expr"], sort_keys=True), via, od), [])
+            ln = dict(c, obs=obs, obsn=obsn, via=via + ("-defaults-omitted" if od else ""), src="A" if i < len(cases) else "B", nprev=len(h))
             lines.append(ln)
+            h.append(len(lines) - 1)
     for ln in lines:
         ctx.count((ln["src"], ln["via"], repr(ln["expr"]), repr(ln["env"]), repr(ln["cur"])))
     rej = tables.validate_lines(ctx, "Trace_Criteria", lines, "crit", jobs=16)
@@ -228,9 +237,15 @@ def run(ctx):
             from harness import core
             raise core.MachineryError(f"Criteria.tla fails its own duality check on {ln['expr']}")
         sig = f"C06/{ln['kind']}/{'exception' if ln['obs'] == 'X' else 'wrong-' + ln['obs']}/{ln['via'].split('-')[0]}"
+        payload = {k: ln[k] for k in ("kind", "expr", "env", "cur", "via")}
+        if ln["nprev"]:
+            via, od = ln["via"].split("-")[0], "omitted" in ln["via"]
+            if crit.observe(ln["kind"], ln["expr"], ln["env"], ln["cur"], via, od) != (ln["obs"], ln["obsn"]):
+                sig += "/depends-on-earlier-evaluations"
+                h = hist[(ln["kind"], json.dumps(ln["expr"], sort_keys=True), via, od)]
+                payload["history"] = [{k: lines[j][k] for k in ("env", "cur")} for j in h[:h.index(idx)]][-40:]
         ctx.violation(sig, f"{ln['kind']} {ln['expr']} with env {ln['env']} cur {ln['cur']} via {ln['via']}: real result {ln['obs']}"
-                      f"{ln['obsn'] if ln['obs'] == 'V' else ''}, specification {clause[1]}{clause[2] if clause[1] == 'V' else ''}",
-                      {k: ln[k] for k in ("kind", "expr", "env", "cur", "via")})
+                      f"{ln['obsn'] if ln['obs'] == 'V' else ''}, specification {clause[1]}{clause[2] if clause[1] == 'V' else ''}", payload)
     for ln in lines:
         if ln["kind"] == "bool" and count(ln["expr"]) >= 4:
             ctx.sample({k: ln[k] for k in ("kind", "expr", "env", "obs", "via")}, limit=2)
@@ -244,7 +259,10 @@ def run(ctx):
 
 def replay(ctx, obj):
     via = obj.get("via", "ctor")
-    obs, obsn = crit.observe(obj["kind"], obj["expr"], obj["env"], obj["cur"], via.split("-")[0], "omitted" in via)
+    shared = {}
+    for h in obj.get("history", []):
+        crit.observe(obj["kind"], obj["expr"], h["env"], h["cur"], via.split("-")[0], "omitted" in via, shared=shared)
+    obs, obsn = crit.observe(obj["kind"], obj["expr"], obj["env"], obj["cur"], via.split("-")[0], "omitted" in via, shared=shared)
     ln = dict(obj, obs=obs, obsn=obsn)
     rej = tables.validate_lines(ctx, "Trace_Criteria", [ln], "replay", jobs=1)
     print("observed:", obs, obsn, "rejected:", rej)
